@@ -69,13 +69,13 @@ pub fn config(name: &str) -> SanitizerConfig {
 /// Tree of a node through the public node API (iterative over siblings, recursive over depth).
 fn dump(node: &NodeRef) -> Value {
     match node.data() {
-        NodeData::Text(t) => json!({"k": "text", "name": "", "attrs": [], "kids": [], "text": cps(&t.borrow())}),
+        NodeData::Text(t) => json!({"k": "text", "name": "", "attrs": [], "kids": [], "text": cps(&t.borrow()), "foreign": false}),
         NodeData::Element(e) => {
             let attrs: Vec<Value> = e.attrs.borrow().iter().map(|a| json!({"n": &*a.name.local, "ns": !a.name.ns.is_empty(), "v": cps(&a.value)})).collect();
             let kids: Vec<Value> = node.children().map(|c| dump(&c)).collect();
-            json!({"k": "el", "name": &*e.name.local, "attrs": attrs, "kids": kids, "text": []})
+            json!({"k": "el", "name": &*e.name.local, "attrs": attrs, "kids": kids, "text": [], "foreign": &*e.name.ns != "http://www.w3.org/1999/xhtml"})
         }
-        _ => json!({"k": "other", "name": "", "attrs": [], "kids": [], "text": []}),
+        _ => json!({"k": "other", "name": "", "attrs": [], "kids": [], "text": [], "foreign": false}),
     }
 }
 fn dump_doc(h: &Html) -> Value {
@@ -227,6 +227,10 @@ pub fn run(args: &[String]) {
     probes.push("<table><template><td>x</td></template></table>".into());
     // a newline right after the start tag of pre is dropped by the parser: one that is part of the text must be written twice
     probes.push("<font color=\"#ff0000\" data-mx-color=\"#00ff00\">x</font>".into());
+    // elements of foreign content that share their local name with an allowed HTML element
+    probes.push("<svg><td>x</td></svg>".into());
+    probes.push("<math><tr><td>x</td></tr></math>".into());
+    probes.push("<p><svg><caption>x</caption><font>f</font><a href=\"https://x/\">a</a></svg></p>".into());
     probes.push("<pre>\n\n\nfn main() {}\n</pre>".into());
     probes.push("<pre><x-foo></x-foo>\nx</pre><p>\nkept</p>".into());
     probes.push("<pre><code class=\"language-rust\">\n\nx</code></pre>".into());
